@@ -81,3 +81,8 @@ def lemma_zero_row(m):
         inst(j)
         j = j + 1
     return j
+
+
+def lemma_field():
+    """one-line facts of real arithmetic (congruence of division / of the weight formula): requires => ensures, no ghost steps"""
+    return 0
